@@ -515,3 +515,86 @@ Example C16_example_between_up_to_rounding :
   PrimFloat.ltb (nth 0 y 0%float) v = true.
 Proof. exact Proofs.C16Err.between_example. Qed.
 Local Close Scope R_scope.
+
+(* ======================================================================================================== *)
+(** ** extension (one contiguous block): rounding error of the two extrapolation formulas on binary64, in the form they
+    have after the repair "distance ratio instead of slope" (Extrapolate mode, finite targets left / right of the range of
+    finite, strictly increasing abscissae whose end widths do not overflow); proofs in Proofs/C16Extrap.v.
+        left:   v = y_0     - ratio * (y_1 - y_0),            ratio = (x_0 - t) / (x_1 - x_0)
+        right:  v = y_{n-1} + ratio * (y_{n-1} - y_{n-2}),    ratio = (t - x_{n-1}) / (x_{n-1} - x_{n-2})
+    With u = 2^-53, Y the ordinate of the nearer end knot, dy the rise of the end segment and T = (distance / dx) * dy the
+    exact extrapolation term, against the REAL straight line through the two end knots ([line] of Spec/Interp.v):
+        | v - line |  <=  u |Y| + ((1+u)^6 - 1) |T| + (1+u)^3 2^-1075 |dy| + (1+u) 2^-1075     whenever v is finite,
+        | v - line |  <=  u |Y| + ((1+u)^6 - 1) |T|     when neither the ratio quotient nor the product underflows
+    (each exact value is 0 or at least 2^-1022 in magnitude).  (1+u)^6 - 1 is about 6u: six roundings lie between the
+    data and the result along T, one along Y. *)
+Local Open Scope R_scope.
+From Compute Require Proofs.C16Extrap.
+
+Theorem C16_extrapolate_error_binary64 :
+  forall (tbl : libm_table) (x y : list PrimFloat.float),
+    (2 <= length x)%nat ->
+    (forall i, (i < length x)%nat -> PrimFloat.is_finite (nth i x 0%float) = true) ->
+    (forall i, (S i < length x)%nat -> PrimFloat.ltb (nth i x 0%float) (nth (S i) x 0%float) = true) ->
+    (forall i, (S i < length x)%nat ->
+               PrimFloat.is_finite (PrimFloat.sub (nth (S i) x 0%float) (nth i x 0%float)) = true) ->
+    (* targets left of the range *)
+    (forall t, PrimFloat.is_finite t = true -> FR t < FR (nth 0 x 0%float) ->
+      let x0 := nth 0 x 0%float in let x1 := nth 1 x 0%float in
+      let y0 := nth 0 y 0%float in let y1 := nth 1 y 0%float in
+      let ratio := ((x0 - t) / (x1 - x0))%float in
+      let v := (y0 - ratio * (y1 - y0))%float in
+      interp1 (FO tbl) x y (length x) MExtrap t = Some v /\
+      (PrimFloat.is_finite v = true ->
+       let T := (FR x0 - FR t) / (FR x1 - FR x0) * (FR y1 - FR y0) in
+       Rabs (FR v - line (FR x0) (FR y0) (FR x1) (FR y1) (FR t))
+         <= / 2 ^ 53 * Rabs (FR y0) + ((1 + / 2 ^ 53) ^ 6 - 1) * Rabs T
+            + (1 + / 2 ^ 53) ^ 3 * / 2 ^ 1075 * Rabs (FR y1 - FR y0) + (1 + / 2 ^ 53) * / 2 ^ 1075 /\
+       ((FR (x0 - t) / FR (x1 - x0) = 0 \/ / 2 ^ 1022 <= Rabs (FR (x0 - t) / FR (x1 - x0))) ->
+        (FR ratio * FR (y1 - y0) = 0 \/ / 2 ^ 1022 <= Rabs (FR ratio * FR (y1 - y0))) ->
+        Rabs (FR v - line (FR x0) (FR y0) (FR x1) (FR y1) (FR t))
+          <= / 2 ^ 53 * Rabs (FR y0) + ((1 + / 2 ^ 53) ^ 6 - 1) * Rabs T))) /\
+    (* targets right of the range *)
+    (forall t, PrimFloat.is_finite t = true -> FR (nth (length x - 1) x 0%float) < FR t ->
+      let xa := nth (length x - 2) x 0%float in let xb := nth (length x - 1) x 0%float in
+      let ya := nth (length x - 2) y 0%float in let yb := nth (length x - 1) y 0%float in
+      let ratio := ((t - xb) / (xb - xa))%float in
+      let v := (yb + ratio * (yb - ya))%float in
+      interp1 (FO tbl) x y (length x) MExtrap t = Some v /\
+      (PrimFloat.is_finite v = true ->
+       let T := (FR t - FR xb) / (FR xb - FR xa) * (FR yb - FR ya) in
+       Rabs (FR v - line (FR xa) (FR ya) (FR xb) (FR yb) (FR t))
+         <= / 2 ^ 53 * Rabs (FR yb) + ((1 + / 2 ^ 53) ^ 6 - 1) * Rabs T
+            + (1 + / 2 ^ 53) ^ 3 * / 2 ^ 1075 * Rabs (FR yb - FR ya) + (1 + / 2 ^ 53) * / 2 ^ 1075 /\
+       ((FR (t - xb) / FR (xb - xa) = 0 \/ / 2 ^ 1022 <= Rabs (FR (t - xb) / FR (xb - xa))) ->
+        (FR ratio * FR (yb - ya) = 0 \/ / 2 ^ 1022 <= Rabs (FR ratio * FR (yb - ya))) ->
+        Rabs (FR v - line (FR xa) (FR ya) (FR xb) (FR yb) (FR t))
+          <= / 2 ^ 53 * Rabs (FR yb) + ((1 + / 2 ^ 53) ^ 6 - 1) * Rabs T))).
+Proof.
+  intros tbl x y Hn Fx Sx Fw. split; intros t Ft Ht.
+  - exact (Proofs.C16Extrap.extrapolate_left_error_binary64 tbl x y Hn Fx Sx Fw t Ft Ht).
+  - exact (Proofs.C16Extrap.extrapolate_right_error_binary64 tbl x y Hn Fx Sx Fw t Ft Ht).
+Qed.
+
+(** the hypotheses are satisfiable (three knots, an inexact ordinate, one target on each side, no underflow) *)
+Theorem C16_example_extrapolate_error_binary64 :
+  let x := [0; 1; 3]%float in let y := [1; 0x1.999999999999ap-4; 2.5]%float in
+  let tl := (-0.75)%float in let tr := 4.25%float in
+  (2 <= length x)%nat /\
+  (forall i, (i < length x)%nat -> PrimFloat.is_finite (nth i x 0%float) = true) /\
+  (forall i, (S i < length x)%nat -> PrimFloat.ltb (nth i x 0%float) (nth (S i) x 0%float) = true) /\
+  (forall i, (S i < length x)%nat -> PrimFloat.is_finite (nth (S i) x 0%float - nth i x 0%float)%float = true) /\
+  PrimFloat.is_finite tl = true /\ FR tl < FR (nth 0 x 0%float) /\
+  PrimFloat.is_finite tr = true /\ FR (nth (length x - 1) x 0%float) < FR tr /\
+  (exists v, interp1 FO0 x y (length x) MExtrap tl = Some v /\ PrimFloat.is_finite v = true) /\
+  (exists v, interp1 FO0 x y (length x) MExtrap tr = Some v /\ PrimFloat.is_finite v = true) /\
+  (let z := FR (nth 0 x 0%float - tl) / FR (nth 1 x 0%float - nth 0 x 0%float) in
+   z = 0 \/ / 2 ^ 1022 <= Rabs z) /\
+  (let z := FR ((nth 0 x 0%float - tl) / (nth 1 x 0%float - nth 0 x 0%float))%float * FR (nth 1 y 0%float - nth 0 y 0%float) in
+   z = 0 \/ / 2 ^ 1022 <= Rabs z) /\
+  (let z := FR (tr - nth 2 x 0%float) / FR (nth 2 x 0%float - nth 1 x 0%float) in
+   z = 0 \/ / 2 ^ 1022 <= Rabs z) /\
+  (let z := FR ((tr - nth 2 x 0%float) / (nth 2 x 0%float - nth 1 x 0%float))%float * FR (nth 2 y 0%float - nth 1 y 0%float) in
+   z = 0 \/ / 2 ^ 1022 <= Rabs z).
+Proof. exact Proofs.C16Extrap.extrapolate_example. Qed.
+Local Close Scope R_scope.
